@@ -4,7 +4,8 @@
 patch=$1; tier=$2; shift 2
 if [ -n "$(git -C /repo status --porcelain --untracked-files=no)" ]; then echo "/repo not clean"; exit 3; fi
 git -C /repo apply "$(realpath "$patch")" || { echo "patch does not apply"; exit 3; }
-trap 'git -C /repo checkout -- . ; echo "[/repo restored]"' EXIT INT TERM
+bak=$(mktemp -d); cp -r /verif/evidence $bak/
+trap 'git -C /repo checkout -- . ; rm -rf /verif/evidence; cp -r $bak/evidence /verif/evidence; rm -rf $bak; echo "[/repo and evidence restored]"' EXIT INT TERM
 for c in "$@"; do
   out=$(./check $c --tier $tier 2>&1); rc=$?
   echo "== $c ($tier) rc=$rc: $(echo "$out" | grep -cE '^VIOLATION') violations; $(echo "$out" | grep -E '^\[C|INCONCLUSIVE' | tail -1)"
